@@ -923,6 +923,9 @@ class FileHashStore(HashStore):
                 for path in metadata_file_paths:
                     # Get document name
                     pid_doc = os.path.basename(path)
+                    if pid_doc.endswith("_delete"):
+                        # Already marked for deletion by another call, which will remove it
+                        continue
                     # Synchronize based on doc name
                     # Wait for the pid to release if it's in use
                     sync_begin_debug_msg = (
